@@ -57,9 +57,9 @@ type item struct {
 type runner struct {
 	last   []string // tasks of the last processed block
 	light  bool     // observe only the registry getters (scratch / monitor runs)
-	cur    *state  // the state after the last item (nil: unknown)
-	status string  // result of the last block item
-	out    *hx.Out // nil: silent run
+	cur    *state   // the state after the last item (nil: unknown)
+	status string   // result of the last block item
+	out    *hx.Out  // nil: silent run
 	n      *node
 	writes []int    // write calls per processed block (uninterrupted ones)
 	tasks  []string // all tasks in order
